@@ -89,7 +89,7 @@ func (df *Defflavor) adjoin(b []byte) []byte {
 	b = append(b, "(defflavor"...)
 	for _, n := range df.children {
 		if n.newline() {
-			b = append(b, indent[:n.left()+1]...)
+			b = newlineIndent(b, n.left())
 		} else {
 			b = append(b, ' ')
 		}
